@@ -4847,8 +4847,12 @@ EmitJmpCall:
 
       label = &_code->label_entry_of(label_id);
       if (label->is_bound_to(_section)) {
-        // Label bound to the current section.
-        rel32 = uint32_t((label->offset() - ip - inst32_size) & 0xFFFFFFFFu);
+        // Label bound to the current section - the displacement must fit in 32 bits (always true in 32-bit mode).
+        uint64_t rel64 = label->offset() - ip - inst32_size;
+        if (ASMJIT_UNLIKELY(!is_32bit() && !Support::is_int_n<32>(int64_t(rel64))))
+          goto InvalidDisplacement;
+
+        rel32 = uint32_t(rel64 & 0xFFFFFFFFu);
         goto EmitJmpCallRel;
       }
       else {
